@@ -317,7 +317,7 @@ def run(pr, repo):
                                                            (C02.task_sections, ()), (C08.task_average_twins, ()),
                                                            (C08.task_average, (2,)), (C14.task_init_group, ()), (C14.task_parse, ()),
                                                            # titrate-only matching reads chain/number/icode of COPIED atoms too
-                                                           (C14.task_make_copy, ()),
+                                                           (C14.task_make_copy, ()), (C14.task_setup_and_add, ()),
                                                            # 'a cysteine in a disulfide bridge is reported as 99.99': every S-S
                                                            # pair within bonding distance is found, wherever it lies in the cell grid
                                                            (C11.task_cell_lemma, ()), (C11.task_boxes_pair, ('S', 'S', False, (0,))), (task_summary_rows, ())]
@@ -377,15 +377,26 @@ def bounded(pr):
             yield n + ' no OXT, bare TER records', [('TER\n' if l.startswith('TER') else l) for l in base if l[12:16] != ' OXT']
             yield n + ' chain B renumbered to start at the last number of A', _renumber(base)
             yield n + ' waters as ATOM', [('ATOM  ' + l[6:]) if l[17:20] == 'HOH' else l for l in base]
-    for name, lines in layouts():
+    def selections():
+        # chain selections, including the chain without identifier (option value ' ', stored on atoms as '_')
+        base = native.pdb_lines('1HPX')
+        blank_b = [(l[:21] + ' ' + l[22:]) if l[:6] in ('ATOM  ', 'HETATM') and l[21] == 'B' else l for l in base]
+        for sel in ([' '], ['A', ' '], [' ', 'A'], ['A']):
+            opts = []
+            for c in sel:
+                opts += ['-c', c]
+            yield '1HPX chain B without identifier, -c %r' % (sel,), blank_b, opts, \
+                [l for l in blank_b if not (l[:6] in ('ATOM  ', 'HETATM') and l[21] not in sel)]
+    work = [(n, ls, [], ls) for n, ls in layouts()] + list(selections())
+    for name, lines, opts, lines_expected in work:
         ev += 1
         classes.add(name.split(' ', 1)[-1])
         try:
-            mol = native.run_text(lines)
-        except Exception as e:   # noqa
+            mol = native.run_text(lines, opts)
+        except (Exception, SystemExit) as e:   # noqa
             viol.append({'what': '%s: %s' % (name, e), 'replay': None})
             continue
-        exp = expected_sites(lines, p.ignore_residues, p.ions)
+        exp = expected_sites(lines_expected, p.ignore_residues, p.ions)
         # alt-loc: a site is expected once per conformation; compare on the first conformation
         c = mol.conformations[mol.conformation_names[0]]
         got = {}
@@ -415,7 +426,8 @@ def bounded(pr):
         # property form: every site of the structure has a summary row - also a group discarded due to covalent coupling
         labels = {r[0].strip() for r in rows}
         for g in mol.conformations['AVR'].groups:
-            if g.residue_type in TABLE and g.atom.type == 'atom' and g.label.strip() not in labels and g.coupled_titrating_group:
+            if g.residue_type in TABLE and g.atom.type == 'atom' and g.label.strip() not in labels and g.coupled_titrating_group \
+                    and not any(v['what'].startswith(name.split(' ')[0]) and 'discarded due to covalent coupling' in v['what'] for v in viol):
                 viol.append({'what': '%s: %s is in the results (pKa %.2f) but has no row in the summary and determinant tables: discarded '
                                      'due to covalent coupling with %s (remove_penalised_group)' % (
                                          name, ' '.join(g.label.split()), g.pka_value, ' '.join(g.coupled_titrating_group.label.split())),
@@ -424,7 +436,7 @@ def bounded(pr):
         for g in c.groups:
             if g.atom.cysteine_bridge and g.residue_type == 'CYS' and abs(g.pka_value - 99.99) > 1e-9:
                 bad.append('bridged CYS %s reported with %r' % (g.label, g.pka_value))
-        if bad and len(viol) < 3:
+        if bad and len([v for v in viol if 'discarded due to covalent coupling' not in v['what']]) < 3:
             viol.append({'what': '%s: %s' % (name, bad[:3]), 'replay': None})
     pr.bounded.append({'name': 'C01-monitor: census from the input text vs groups and summary', 'evaluations': ev,
                        'distinct_nontrivial': len(classes), 'bound': '%d layouts' % ev,
